@@ -488,10 +488,44 @@ def worker(rec, shard, nshards, thorough, seed):
             rec.violation("C07:row-codes-depend-on-which-column-holds-the-failing-cell", file=res[0][0], swapped=res[1][0],
                           codes=res[0][1], codes_swapped=res[1][1])
         rec.outcome("swap")
+    # F10 one table object, validated, edited in place, validated again: every validation is that of the current cells
+    from hed.models.hed_string import HedString as _HS
+    from hed.models.tabular_input import TabularInput as _TI
+    edit_rows = ["Red", "Zzq", "Square, Square", "Blue"]
+    edits = [(1, "Green"), (0, "Zzqq"), (2, "Square"), (3, "(Circle, Circle)")]
+    hist10 = [h for d in (2, 3) for h in itertools.product(["validate"] + list(range(len(edits))), repeat=d)]
+    for hi in core.shard_order(len(hist10), shard, nshards, seed):
+        hist = hist10[hi]
+        if "validate" not in hist[1:]:
+            continue
+        cells = list(edit_rows)
+        rec.n("evaluations")
+        rec.n("transitions", len(hist))
+        rec.n("distinct_nontrivial")
+        rec.state(("F10", tuple(sorted(map(str, set(hist))))))
+        try:
+            def table(c):
+                return _TI(io.StringIO("onset\tHED\n" + "".join(f"{10 * (i + 1)}\t{x}\n" for i, x in enumerate(c))), name="f.tsv")
+            obj = table(cells)
+            for step, op in enumerate(hist):
+                if op == "validate":
+                    got = sorted((i["code"], i.get("ec_row")) for i in obj.validate(env.schema, extra_def_dicts=env.dd))
+                    want = sorted((i["code"], i.get("ec_row")) for i in table(cells).validate(env.schema, extra_def_dicts=env.dd))
+                    if got != want:
+                        rec.violation("C07:validation-after-edit-differs-from-fresh-table", history=[str(h) for h in hist],
+                                      step=step, cells=cells, fresh=want, got=got)
+                        break
+                else:
+                    r, text = edits[op]
+                    obj.set_cell(r, 1, _HS(text, env.schema))
+                    cells[r] = text
+        except Exception as e:
+            rec.violation(f"C07:raises:{type(e).__name__}:F10", history=[str(h) for h in hist], error=repr(e)[:300])
+        rec.outcome("edit-history")
     # F4 unit spellings of Delay / Duration groups
     spell_cases = []
     for sp in UNIT_SPELLINGS:
-        for tag in ("Delay", "Duration"):
+        for tag in ("Delay", "Duration", "DELAY", "delay"):
             for other in ("tag", "onset", "na"):
                 spell_cases.append((tag, sp, other))
     for ci in core.shard_order(len(spell_cases), shard, nshards, seed):
